@@ -42,13 +42,21 @@ Join(s) == IF s = <<>> THEN "" ELSE IF Len(s) = 1 THEN s[1] ELSE s[1] \o ";" \o 
 NonEmpty(s) == SelectSeq(s, LAMBDA x : x # "")
 
 (* ------------------------------ memory, registry ------------------------------ *)
-RunOf(e, b, x) == CHOOSE r \in 1..Len(e.memd) : e.memd[r][1] = b /\ x >= e.memd[r][2] /\ x < e.memd[r][2] + Len(e.memd[r][3])
-Covered(e, b, x) == \E r \in 1..Len(e.memd) : e.memd[r][1] = b /\ x >= e.memd[r][2] /\ x < e.memd[r][2] + Len(e.memd[r][3])
-ApplyMem(m, e) ==
-  [b \in 1..Len(m) |->
-     IF ~\E r \in 1..Len(e.memd) : e.memd[r][1] = b THEN (IF e.cap[b] = Len(m[b]) THEN m[b] ELSE [x \in 1..e.cap[b] |-> IF x <= Len(m[b]) THEN m[b][x] ELSE -1])
-     ELSE [x \in 1..e.cap[b] |-> IF Covered(e, b, x - 1) THEN LET r == RunOf(e, b, x - 1) IN e.memd[r][3][x - e.memd[r][2]]
-                                  ELSE IF x <= Len(m[b]) THEN m[b][x] ELSE -1]]
+(* mem' is built as CONCRETE sequences (splicing run by run): a function constructor [x \in .. |-> ..] would stay *)
+(* lazy in TLC and be re-evaluated on every byte access                                                            *)
+RECURSIVE ApplyRuns(_, _, _, _)
+ApplyRuns(m, e, b, r) ==
+  IF r > Len(e.memd) THEN m
+  ELSE IF e.memd[r][1] # b THEN ApplyRuns(m, e, b, r + 1)
+  ELSE LET st == e.memd[r][2]
+           bytes == e.memd[r][3]
+           grown == IF st + Len(bytes) > Len(m) THEN m \o [i \in 1..(st + Len(bytes) - Len(m)) |-> -1] ELSE m
+       IN ApplyRuns(SubSeq(grown, 1, st) \o bytes \o SubSeq(grown, st + Len(bytes) + 1, Len(grown)), e, b, r + 1)
+NewMem(m, e, b) == LET x == ApplyRuns(m[b], e, b, 1)
+                   IN IF Len(x) < e.cap[b] THEN x \o [i \in 1..(e.cap[b] - Len(x)) |-> -1] ELSE x
+RECURSIVE BuildMem(_, _, _)
+BuildMem(m, e, k) == IF k = 0 THEN <<>> ELSE Append(BuildMem(m, e, k - 1), NewMem(m, e, k))
+ApplyMem(m, e) == BuildMem(m, e, Len(m))
 (* positions of EXISTING bytes that changed *)
 Chg(m, e) == UNION {{<<e.memd[r][1], x>> : x \in {y \in e.memd[r][2]..(e.memd[r][2] + Len(e.memd[r][3]) - 1) : y < Len(m[e.memd[r][1]])}} : r \in 1..Len(e.memd)}
 Regions(rs) == UNION {{<<rs[i][1], x>> : x \in rs[i][2]..(rs[i][2] + rs[i][3] - 1)} : i \in 1..Len(rs)}
